@@ -26,13 +26,11 @@ import json
 import os
 import pathlib
 import queue
-import random
 import re
 import shutil
 import stat
 import subprocess
 import sys
-import threading
 import time
 
 from ..core import MachineryFailure, REPO, NCPU, sha
@@ -382,7 +380,14 @@ class History:
         dig = sb.out_digest() if mode == "run" else ""
         self.steps.append({"m": mode, "ok": rc == 0, "pre": self._enc(pre), "post": self._enc(post), "listed": [self.pid(s) for s in listed],
                            "ver": sorted(self.pid(r) for r in self.pert), "dig": self.did(dig)})
-        r = {"m": mode, "rc": rc, "pre": pre, "post": post, "listed": listed, "ver": sorted(self.pert), "dig": dig, "stderr": se, "argv": argv}
+        changes = []
+        for p in sorted(set(pre) | set(post)):
+            a, b = pre.get(p), post.get(p)
+            if a != b:
+                changes.append(("created" if a is None else "deleted" if b is None else "modified", p, (b or a)[0] == 0))
+        r = {"m": mode, "rc": rc, "listed": listed, "ver": sorted(self.pert), "dig": dig, "stderr": se if rc else "", "changes": changes,
+             "created": sorted(p for p, e in post.items() if e[0] == 1 and p not in pre),
+             "populated": any(e[0] == 1 and e[1] == 1 for e in pre.values())}
         self.raw.append(r)
         return r
 
@@ -516,13 +521,6 @@ def kind_of_output(ctx, case, rel):
     return "support" if "nunavut" in rel else "other"
 
 
-def class_of_input(sb, case, rel):
-    for r, cls in candidates(sb, case):
-        if r == rel:
-            return cls
-    return "other"
-
-
 def opt_tag(o):
     t = ["generate-support=" + o["gs"]]
     for k, n in (("omit", "omit-serialization-support"), ("ns", "generate-namespace-types"), ("tpl", "templates"), ("suptpl", "support-templates")):
@@ -532,7 +530,7 @@ def opt_tag(o):
 
 
 # ------------------------------------------------------------------------------------------------ explanation of rejections
-def explain(ctx, sb_like, case, h, clauses):
+def explain(ctx, case, h, clauses):
     """P (the T-layer) rejected this history; work out which observation fails which clause -> (signature, message) list.
     Purely descriptive: if nothing can be pinned down the bare clause is reported."""
     o = case["o"]
@@ -542,16 +540,18 @@ def explain(ctx, sb_like, case, h, clauses):
         found = False
         for L in (r for r in raws if r["m"] == "lo"):
             for R in (r for r in raws if r["m"] == "run" and r["rc"] == 0 and r["ver"] == L["ver"]):
-                if any(e[0] == 1 and e[1] == 1 for e in R["pre"].values()):
+                if R["populated"]:
                     continue
-                created = set(p for p, e in R["post"].items() if e[0] == 1 and p not in R["pre"])
+                created = set(R["created"])
                 extra, missing = set(L["listed"]) - created, created - set(L["listed"])
                 for tag, s in (("extra", extra), ("missing", missing)):
                     if s:
                         kinds = sorted(set(kind_of_output(ctx, case, p) for p in s))
-                        rel_opts = ["generate-support=" + o["gs"]] + (["omit-serialization-support"] if o["omit"] else []) + \
+                        # the options that select the kind of file concerned (so that one cause gives one signature)
+                        rel_opts = (["generate-support=" + o["gs"]] + (["omit-serialization-support"] if o["omit"] else [])
+                                    if "support" in kinds or o["gs"] == "only" else []) + \
                                    (["generate-namespace-types"] if o["ns"] and "namespace" in kinds else [])
-                        sig = "C08|list.outputs_eq|%s:%s|%s" % (tag, "+".join(kinds), ",".join(rel_opts))
+                        sig = "C08|list.outputs_eq|%s:%s|%s" % (tag, "+".join(kinds), ",".join(rel_opts) or "-")
                         res.append((sig, "--list-outputs (exit %d) %s %s that a real run into an empty directory %s [%s %s]"
                                     % (L["rc"], "names" if tag == "extra" else "does not name", sorted(s)[:4],
                                        "does not create" if tag == "extra" else "creates", o["lang"], opt_tag(o))))
@@ -565,17 +565,12 @@ def explain(ctx, sb_like, case, h, clauses):
     if "list.passive_no_effect" in clauses:
         found = False
         for r in raws:
-            if r["m"] in ("lo", "li", "dry") and r["pre"] != r["post"]:
-                ch = []
-                for p in sorted(set(r["pre"]) | set(r["post"])):
-                    a, b = r["pre"].get(p), r["post"].get(p)
-                    if a != b:
-                        ch.append(("created" if a is None else "deleted" if b is None else "modified", p))
+            if r["m"] in ("lo", "li", "dry") and r["changes"]:
                 # a directory whose only change is its mtime follows from a child being created/deleted: name the children first
-                prim = [c for c in ch if not (c[0] == "modified" and r["post"].get(c[1], (1,))[0] == 0)] or ch
+                prim = [c[:2] for c in r["changes"] if not (c[0] == "modified" and c[2])] or [c[:2] for c in r["changes"]]
                 what = prim[0]
                 zone = "outdir" if what[1].startswith("out") else "cwd" if what[1].startswith("cwd") else "inputs"
-                state = "populated" if any(e[0] == 1 and e[1] == 1 for e in r["pre"].values()) else "empty"
+                state = "populated" if r["populated"] else "empty"
                 res.append(("C08|list.passive_no_effect|%s|%s:%s|%s" % ({"lo": "list-outputs", "li": "list-inputs", "dry": "dry-run"}[r["m"]], what[0], zone, state),
                             "%s changed the disk: %s [%s %s]" % (r["m"], prim[:4], o["lang"], opt_tag(o))))
                 found = True
@@ -594,7 +589,7 @@ def explain(ctx, sb_like, case, h, clauses):
 
 
 # ------------------------------------------------------------------------------------------------ drift (I-layer predictions)
-def compare_predictions(ctx, case, h, exp, exp_found=None, drift=None, variant=None):
+def compare_predictions(ctx, case, h, exp, exp_found=None, drift=None, variant=None, rejected=""):
     """exp = the TLC case record of the repaired I-layer, exp_found = of the I-layer with the three switches off (code as found).
     The lists may follow either; anything else is model drift -- never a violation."""
     drift = drift or ctx.drift
@@ -615,20 +610,22 @@ def compare_predictions(ctx, case, h, exp, exp_found=None, drift=None, variant=N
         return
     conc = concrete_outputs(ctx, case)
     R = runs[0]
-    created = set(p for p, e in R["post"].items() if e[0] == 1 and p not in R["pre"])
+    created = set(R["created"])
     want = set().union(*[conc[k] for k in exp["created"]]) if exp["created"] else set()
     if created != want:
         drift("I-layer: files created for %s: predicted %s, observed differs by %s" % (tag, sorted(exp["created"]), sorted(created ^ want)[:4]))
     los = [r for r in raws if r["m"] == "lo"]
     if los and los[0]["rc"] == 0:
         wants = [set().union(*[conc[k] for k in e["lo"]]) if e["lo"] else set() for e in (exp, exp_found)]
-        if set(los[0]["listed"]) not in wants:
+        if set(los[0]["listed"]) != created:
+            pass  # P's business (list.outputs_eq), not drift
+        elif set(los[0]["listed"]) not in wants:
             drift("I-layer: --list-outputs for %s: predicted %s (as found: %s), observed differs by %s"
                   % (tag, sorted(exp["lo"]), sorted(exp_found["lo"]), sorted(set(los[0]["listed"]) ^ wants[0])[:4]))
         elif wants[0] != wants[1]:
             variant.setdefault("FwdOmitToList", set()).add(set(los[0]["listed"]) == wants[0])
     lis = [r for r in raws if r["m"] == "li"]
-    if lis and lis[0]["rc"] == 0:
+    if lis and lis[0]["rc"] == 0 and "list.inputs_cover" not in rejected:
         got = set(lis[0]["listed"])
         cls = {"tplB": lambda p: p.startswith("src/nunavut/lang/%s/templates/" % o["lang"]) and p.endswith(".j2"),
                "tplU": lambda p: p.startswith("in/tpl/") and p.endswith(".j2"),
@@ -800,7 +797,10 @@ class Pool:
             self.q.put(sb)
         self.n = n
 
-    def map(self, cases):
+        self.ex = concurrent.futures.ThreadPoolExecutor(max_workers=n)
+
+    def imap(self, cases):
+        """results in the order of `cases`, as they become available (all cases are submitted at once)"""
         def one(case):
             sb = self.q.get()
             try:
@@ -808,32 +808,59 @@ class Pool:
             finally:
                 self.q.put(sb)
 
-        with concurrent.futures.ThreadPoolExecutor(max_workers=self.n) as ex:
-            return list(ex.map(one, cases))
+        return self.ex.map(one, cases)
+
+    def close(self):
+        self.ex.shutdown(wait=True)
 
 
-def judge(ctx, pool, cases, results, exps=None):
-    """T-layer verdict for every history; explanations and signatures for the rejected ones"""
+def judge(ctx, cases, results):
+    """T-layer verdict for every history; explanations and signatures for the rejected ones.  Returns {id: clauses}."""
     recs = [r for r, h in results if any(s["m"] == "run" and s["ok"] for s in r["steps"])]  # others: outside the domain, nothing claimed
-    rej = tlc.validate_traces(ctx, "GenListingTrace", recs, batch=max(8, (len(recs) + NCPU - 1) // NCPU), constants=TRACE_CONSTANTS, xmx="2g")
+    rej = tlc.validate_traces(ctx, "GenListingTrace", recs, batch=max(6, (len(recs) + NCPU - 1) // NCPU), constants=TRACE_CONSTANTS, xmx="2g")
     by_id = {c["id"]: (c, h) for c, (r, h) in zip(cases, results)}
-    nviol = 0
-    _rejected_ids.update(rej)
     for rid, clause in sorted(rej.items()):
         case, h = by_id[rid]
         if clause.startswith("harness"):
             raise MachineryFailure("harness produced an inconsistent record for case %r: %s" % (case["id"], clause))
         clauses = [c for c in clause.split("+") if c]
-        pub = {k: v for k, v in case.items() if not k.startswith("_")}
+        pub = json.loads(json.dumps({k: v for k, v in case.items() if not k.startswith("_")}))
         if case.get("kind") == "ambiguous":
             for pr in (r for r in h.raw if r["m"] == "probe" and r["influences"] and not r["listed"]):
                 ctx.ambiguous("--list-inputs does not name %s (%s), which a template includes and whose content reaches the output; it does not carry "
                               "the template suffix .j2 -- 'every template' read as 'every *.j2 file' is satisfied [%s]" % (pr["file"], pr["class"], case["o"]["lang"]))
             clauses = [c for c in clauses if c != "list.inputs_cover"]
-        for sig, what in explain(ctx, None, case, h, clauses):
-            if ctx.violation(sig, what, json.loads(json.dumps(pub))):
-                nviol += 1
+        for sig, what in explain(ctx, case, h, clauses):
+            ctx.violation(sig, what, pub)
     return rej
+
+
+def run_and_judge(ctx, pool, cases, keep=None, slice_size=160):
+    """runs all cases on the pool and judges them slice by slice while later ones are still running (bounded memory: the snapshots of a
+    judged history are dropped).  keep(case, rec, h, rejected_clauses) may retain records for the self-tests.  Returns ([History], {id: clauses})."""
+    hs, rej, buf = [], {}, []
+
+    def flush():
+        cs = [c for c, r, h in buf]
+        rs = [(r, h) for c, r, h in buf]
+        account(ctx, cs, rs)
+        rj = judge(ctx, cs, rs)
+        rej.update(rj)
+        for c, r, h in buf:
+            if keep is not None:
+                keep(c, r, h, rj.get(c["id"], ""))
+            h.steps = None
+            r["steps"] = None
+        del buf[:]
+
+    for case, (rec, h) in zip(cases, pool.imap(cases)):
+        hs.append(h)
+        buf.append((case, rec, h))
+        if len(buf) >= slice_size:
+            flush()
+    if buf:
+        flush()
+    return hs, rej
 
 
 def account(ctx, cases, results):
@@ -890,25 +917,34 @@ def run(ctx):
         lang_facts(ctx, l)
     pool = Pool(ctx, NCPU)
     cases = [to_case(e, i, ctx) for i, e in enumerate(exps)]
+    kept = {}
+
+    def keep(c, r, h, rejected):  # material for the binding self-tests: accepted, complete histories
+        if rejected or not all(x["m"] == "probe" or x["rc"] == 0 for x in h.raw):
+            return
+        if "modes" not in kept and any(s["m"] == "lo" and s["listed"] for s in r["steps"]) and any(s["m"] == "dry" for s in r["steps"]) \
+                and any(s["m"] == "run" for s in r["steps"]):
+            kept["modes"] = (c, json.loads(json.dumps(r)), h, h.pid)
+        if "infl" not in kept and any(x["m"] == "probe" and x["influences"] and x["listed"] for x in h.raw):
+            kept["infl"] = (c, json.loads(json.dumps(r)), h, h.pid)
+
     order = sorted(range(len(cases)), key=lambda i: -len(cases[i]["plan"]) - (20 if any(op[0] == "probes" for op in cases[i]["plan"]) else 0))
-    res_sorted = pool.map([cases[i] for i in order])
-    results = [None] * len(cases)
-    for i, r in zip(order, res_sorted):
-        results[i] = r
+    hs_sorted, rej = run_and_judge(ctx, pool, [cases[i] for i in order], keep)
+    hs = [None] * len(cases)
+    for i, h in zip(order, hs_sorted):
+        hs[i] = h
     variant = {}
-    for case, exp, (rec, h) in zip(cases, exps, results):
-        compare_predictions(ctx, case, h, exp, found[json.dumps(exp["o"], sort_keys=True)], variant=variant)
+    for case, exp, h in zip(cases, exps, hs):
+        compare_predictions(ctx, case, h, exp, found[json.dumps(exp["o"], sort_keys=True)], variant=variant, rejected=rej.get(case["id"], ""))
     ctx.cov["i_layer_switches_matching_tree"] = {k: ("repaired" if v == {True} else "as found" if v == {False} else "mixed") for k, v in sorted(variant.items())}
-    account(ctx, cases, results)
-    judge(ctx, pool, cases, results)
     nrej = sum(1 for e in exps if e["rejected"])
     nfail = sum(1 for e in exps if not e["rejected"] and not e["ok"])
     ctx.cov["spec_to_code"] = {"cases": len(cases), "cli_rejects": nrej, "generation_fails": nfail,
-                               "invocations": sum(len(r["steps"]) for r, h in results),
-                               "probes": sum(1 for r, h in results for x in h.raw if x["m"] == "probe"),
-                               "influence_established": sum(1 for r, h in results for x in h.raw if x["m"] == "probe" and x["influences"])}
+                               "invocations": sum(1 for h in hs for x in h.raw if x["m"] != "probe"),
+                               "probes": sum(1 for h in hs for x in h.raw if x["m"] == "probe"),
+                               "influence_established": sum(1 for h in hs for x in h.raw if x["m"] == "probe" and x["influences"])}
     k = next(i for i, e in enumerate(exps) if e["ok"] and e["o"]["gs"] == "as-needed" and e["o"]["lookup"] and not e["o"]["tpl"])
-    ctx.sample({"direction": "spec->code", "case": exps[k], "observed": [{kk: r[kk] for kk in ("m", "rc", "listed")} for r in results[k][1].raw if r["m"] != "probe"][:4]})
+    ctx.sample({"direction": "spec->code", "case": exps[k], "observed": [{kk: r[kk] for kk in ("m", "rc", "listed")} for r in hs[k].raw if r["m"] != "probe"][:4]})
 
     # ---- 3. ambiguous reading: files that templates include but that do not carry the template suffix
     amb = []
@@ -922,29 +958,26 @@ def run(ctx):
         o = {"lang": lang, "gs": "as-needed", "omit": False, "ns": True, "tpl": tplflag, "suptpl": False, "lookup": False, "ext": "def", "stem": "def"}
         amb.append({"id": 100000 + len(amb), "kind": "ambiguous", "o": o, "x": {}, "nsset": fixture_nsset(False),
                     "plan": [["li"], ["run"], ["probe1", rel, cls]]})
-    amb_res = pool.map(amb)
-    account(ctx, amb, amb_res)
-    judge(ctx, pool, amb, amb_res)
+    run_and_judge(ctx, pool, amb)
 
     # ---- 4. code -> spec: random namespace sets x random options x shuffled mode order
     n_rand = ctx.pick(40, 400)
     rcases = [random_case(ctx.rng, 200000 + i) for i in range(n_rand)]
-    rres = pool.map(rcases)
-    account(ctx, rcases, rres)
-    judge(ctx, pool, rcases, rres)
-    indom = sum(1 for r, h in rres if any(x["m"] == "run" and x["rc"] == 0 for x in h.raw))
-    ctx.cov["code_to_spec"] = {"histories": n_rand, "generation_succeeded": indom, "invocations": sum(len(r["steps"]) for r, h in rres),
-                               "influence_established": sum(1 for r, h in rres for x in h.raw if x["m"] == "probe" and x["influences"])}
+    rhs, _ = run_and_judge(ctx, pool, rcases)
+    indom = sum(1 for h in rhs if any(x["m"] == "run" and x["rc"] == 0 for x in h.raw))
+    ctx.cov["code_to_spec"] = {"histories": n_rand, "generation_succeeded": indom, "invocations": sum(1 for h in rhs for x in h.raw if x["m"] != "probe"),
+                               "influence_established": sum(1 for h in rhs for x in h.raw if x["m"] == "probe" and x["influences"])}
     if indom < n_rand * 0.8:
         raise MachineryFailure("random namespace generator produces too many failing inputs: %d of %d succeed (%s)" %
-                               (indom, n_rand, next((x["stderr"][-300:] for r, h in rres for x in h.raw if x["m"] == "run" and x["rc"] != 0), "")))
-    kk = next((i for i, (r, h) in enumerate(rres) if any(x["m"] == "probe" and x["influences"] for x in h.raw)), 0)
+                               (indom, n_rand, next((x["stderr"][-300:] for h in rhs for x in h.raw if x["m"] == "run" and x["rc"] != 0), "")))
+    kk = next((i for i, h in enumerate(rhs) if any(x["m"] == "probe" and x["influences"] for x in h.raw)), 0)
     ctx.sample({"direction": "code->spec", "options": rcases[kk]["o"], "extra": rcases[kk]["x"], "dsdl_files": sorted(rcases[kk]["nsset"]["rootfiles"]) +
                 [f for lk in rcases[kk]["nsset"]["lookups"] for f in sorted(lk["files"])], "plan": [op[0] for op in rcases[kk]["plan"]],
-                "probes": [{a: x[a] for a in ("file", "class", "influences", "listed")} for x in rres[kk][1].raw if x["m"] == "probe"][:6]})
+                "probes": [{a: x[a] for a in ("file", "class", "influences", "listed")} for x in rhs[kk].raw if x["m"] == "probe"][:6]})
+    pool.close()
 
     # ---- 5. binding self-tests: corrupt one recorded field of an accepted history, the T-layer must reject with the right clause
-    selftests(ctx, cases, results)
+    selftests(ctx, kept)
 
     ctx.cov["cli_invocations"] = sum(sb.nruns for sb in pool.all)
     ctx.cov["rule"] = ("spec->code: every option combination emitted by GenListing.tla (%s) executed in all four modes (passive modes on absent/empty and, "
@@ -966,70 +999,57 @@ def run(ctx):
     ctx.cov["phase_wall_s"] = round(time.time() - t0, 1)
 
 
-def selftests(ctx, cases, results):
-    def pick(pred):
-        for c, (r, h) in zip(cases, results):
-            if pred(c, r, h):
-                return c, r, h
-        return None
-
+def selftests(ctx, kept):
     def verdict(rec):
         n0 = ctx.cov["traces_validated_against_impl"]
         rej = tlc.validate_traces(ctx, "GenListingTrace", [rec], constants=TRACE_CONSTANTS, xmx="1g")
         ctx.cov["traces_validated_against_impl"] = n0
         return rej.get(rec["id"], "ok")
 
-    clean = lambda c, r, h: all(x["m"] == "probe" or x["rc"] == 0 for x in h.raw)
-    # (a) add a path to the printed output list
-    t = pick(lambda c, r, h: clean(c, r, h) and verdict_ok(ctx, r) and any(s["m"] == "lo" and s["listed"] for s in r["steps"]) and any(s["m"] == "run" for s in r["steps"]))
-    if t is None:
-        raise MachineryFailure("self-test: no accepted history with a non-empty output list")
-    c, r, h = t
-    bad = json.loads(json.dumps(r))
-    s = next(s for s in bad["steps"] if s["m"] == "lo")
-    s["listed"] = s["listed"][:-1]
-    ctx.selftest("a path removed from the recorded --list-outputs output is rejected (list.outputs_eq)", "list.outputs_eq" in verdict(bad))
-    # (b) change one attribute id in the post-snapshot of a dry run
-    bad = json.loads(json.dumps(r))
-    s = next(s for s in bad["steps"] if s["m"] == "dry")
-    s["post"][0][1] = s["post"][0][1] + 100000
-    ctx.selftest("one changed attribute in the snapshot after --dry-run is rejected (list.passive_no_effect)", "list.passive_no_effect" in verdict(bad))
-    # (c) remove an influencing input from the recorded --list-inputs output
-    t = pick(lambda c, r, h: clean(c, r, h) and verdict_ok(ctx, r) and any(x["m"] == "probe" and x["influences"] and x["listed"] for x in h.raw))
-    if t is None:
-        raise MachineryFailure("self-test: no accepted history with an established influence of a listed input")
-    c, r, h = t
-    bad = json.loads(json.dumps(r))
-    pr = next(x for x in h.raw if x["m"] == "probe" and x["influences"] and x["listed"])
-    fid = h.pid(pr["file"])
-    for s in bad["steps"]:
-        if s["m"] == "li":
-            s["listed"] = [x for x in s["listed"] if x != fid]
-    ctx.selftest("an influencing input removed from the recorded --list-inputs output is rejected (list.inputs_cover)", "list.inputs_cover" in verdict(bad))
-    # (d) spec -> code: perturb an expected outcome (the model's created classes) and require the comparison to notice
-    # (done on the prediction comparison: expected 'created' without its type files must produce a drift note)
-    noticed = []
-    exp = {"rejected": False, "ok": True, "created": [], "lo": [], "li": [], "infl": []}
-    compare_predictions(ctx, c, h, exp, None, drift=noticed.append)
-    ctx.selftest("a perturbed expected outcome (no files created) is noticed by the spec->code comparison", len(noticed) > 0)
-
-
-def verdict_ok(ctx, rec):
-    """records of step 2 were already judged; a record is usable for the self-test if the T-layer accepted it"""
-    return rec["id"] not in _rejected_ids
-
-
-_rejected_ids = set()
+    for need in ("modes", "infl"):
+        if need not in kept:
+            if ctx.violations or ctx.known_hit:
+                # the tree is so broken that no history of this kind was accepted: the rejections above are the demonstration
+                ctx.not_exercised("binding self-test (%s): no accepted history to corrupt on this tree" % need)
+                continue
+            raise MachineryFailure("self-test: no accepted history (%s) although nothing was rejected" % need)
+    if "modes" in kept:
+        c, r, h, pid = kept["modes"]
+        # (a) drop a path from the printed output list
+        bad = json.loads(json.dumps(r))
+        s = next(s for s in bad["steps"] if s["m"] == "lo" and s["listed"])
+        s["listed"] = s["listed"][:-1]
+        ctx.selftest("a path removed from the recorded --list-outputs output is rejected (list.outputs_eq)", "list.outputs_eq" in verdict(bad))
+        # (b) change one attribute id in the snapshot taken after a dry run
+        bad = json.loads(json.dumps(r))
+        s = next(s for s in bad["steps"] if s["m"] == "dry")
+        s["post"][0][1] = s["post"][0][1] + 100000
+        ctx.selftest("one changed attribute in the snapshot after --dry-run is rejected (list.passive_no_effect)", "list.passive_no_effect" in verdict(bad))
+        # (d) spec -> code: perturb an expected outcome (the model's created classes); the comparison must notice
+        noticed = []
+        exp = {"rejected": False, "ok": True, "created": [], "lo": [], "li": [], "infl": []}
+        compare_predictions(ctx, c, h, exp, None, drift=noticed.append)
+        ctx.selftest("a perturbed expected outcome (no files created) is noticed by the spec->code comparison", len(noticed) > 0)
+    if "infl" in kept:
+        c, r, h, pid = kept["infl"]
+        # (c) remove an influencing input from the recorded --list-inputs output
+        bad = json.loads(json.dumps(r))
+        pr = next(x for x in h.raw if x["m"] == "probe" and x["influences"] and x["listed"])
+        fid = pid(pr["file"])
+        for s in bad["steps"]:
+            if s["m"] == "li":
+                s["listed"] = [x for x in s["listed"] if x != fid]
+        ctx.selftest("an influencing input removed from the recorded --list-inputs output is rejected (list.inputs_cover)", "list.inputs_cover" in verdict(bad))
 
 
 def replay(ctx, case):
     pool = Pool(ctx, 1)
     case = dict(case)
     case.setdefault("id", 1)
-    res = pool.map([case])
-    rej = judge(ctx, pool, [case], res)
-    for r in res[0][1].raw:
+    hs, rej = run_and_judge(ctx, pool, [case])
+    pool.close()
+    for r in hs[0].raw:
         if r["m"] != "probe":
-            print("  %-4s exit %d listed=%s" % (r["m"], r["rc"], r["listed"][:6]))
+            print("  %-4s exit %d ver=%s listed=%s created=%s changed=%s" % (r["m"], r["rc"], r["ver"], r["listed"][:6], r["created"][:6], [c[:2] for c in r["changes"]][:4] if r["m"] != "run" else "-"))
         else:
             print("  probe %s (%s): influences=%s listed=%s" % (r["file"], r["class"], r["influences"], r["listed"]))
